@@ -163,7 +163,8 @@ def check_c19(prop, tier):
         items = []
         seed = common.SEED * 100000
         # every TLC behaviour on a synthetic KlattGrid (number of formants and points vary), a sample of them on the fixture
-        for h in hists:
+        replayed = hists if len(hists) <= 3000 else rng.sample(hists, 3000)
+        for h in replayed:
             seed += 1
             items.append(("synth", {"seed": seed, "nform": rng.randint(1, 5), "npts": rng.randint(0, 3), "hist": h, "nl": rng.random() < 0.8}))
         for h in rng.sample(hists, min(sz["fixture"], len(hists))):
